@@ -19,7 +19,7 @@ from inscripta.biocantor.gene.biotype import Biotype, UNKNOWN_BIOTYPE
 from inscripta.biocantor.gene.cds import CDSInterval
 from inscripta.biocantor.gene.cds_frame import CDSPhase, CDSFrame
 from inscripta.biocantor.gene.codon import TranslationTable
-from inscripta.biocantor.gene.interval import AbstractFeatureInterval, QualifierValue, IntervalType
+from inscripta.biocantor.gene.interval import AbstractFeatureInterval, QualifierValue, IntervalType, sort_interval_lists
 from inscripta.biocantor.io.bed import BED12, RGB
 from inscripta.biocantor.io.gff3.constants import GFF_SOURCE, NULL_COLUMN, BioCantorQualifiers, BioCantorFeatureTypes
 from inscripta.biocantor.io.gff3.exc import GFF3MissingSequenceNameError
@@ -72,6 +72,9 @@ class TranscriptInterval(AbstractFeatureInterval):
         transcript_guid: Optional[UUID] = None,
         parent_or_seq_chunk_parent: Optional[Parent] = None,
     ):
+        exon_starts, exon_ends = sort_interval_lists(exon_starts, exon_ends)
+        if cds_starts is not None and cds_ends is not None:
+            cds_starts, cds_ends, cds_frames = sort_interval_lists(cds_starts, cds_ends, cds_frames)
         self._location = TranscriptInterval.initialize_location(
             exon_starts,
             exon_ends,
